@@ -7,6 +7,10 @@ HERE = os.path.dirname(os.path.dirname(os.path.abspath(__file__)))
 
 # id: (engine, level, technique, text, note, design_ref)
 CHECKS = {
+    "C16": ("T", "model_checking",
+            "TLC explicit-state model checking of a TLA+ model of the documented state machine + replay of every edge of the dumped state graph against the implementation (bisimulation on the bounded graph); plus explicit-state conformance of the implementation with a Python port of the table on a larger alphabet",
+            "TLC proves the model's invariants/action properties (failed step sticky, all-received monotone and set only by rule, frame condition, step list growth, remove-completed exact) on all reachable states for 2 telecommands; every one of the ~9e5 labelled edges is then executed on a fresh real PusVerificator (real PusTc/Service1Tm objects, constructed and decoded) and the abstract state and the call's answer must match, so the properties transfer to the implementation inside the bound.",
+            "the TLA+ model/table is my reading of the documented state machine; bounds: 2 telecommands (+1 unregistered), step list <= 2 (T), up to 3 step ids / list <= 4 / 3 telecommands (H)", "2.4, 4/C16"),
     "C19": ("H", "model_checking",
             "explicit-state exploration of call/restart histories of the real providers on a private file, integer-counter reference model",
             "Every history over {next, get_and_increment, current, restart} up to the depth bound, the state-hashed fixpoint for small widths, and a full cycle with a restart at every inter-call point for larger widths are executed on the real providers; every returned value and the file content after every call are compared with a counter modulo 2^w; the rejection alphabet must raise ValueError / FileNotFoundError.",
